@@ -167,7 +167,10 @@ def apply(lay, name, args):
     if name == "project":
         return lay.project()
     if name == "bytemask":
-        return lay.bytemask()
+        # a byte mask is read as booleans ("!= 0" in the C++ layer, .view(bool) in the Python layer): a ByteMaskedArray
+        # with valid_when=False hands out its own mask bytes, whatever non-zero values they hold
+        import numpy as _np
+        return [1 if x else 0 for x in _np.asarray(lay.bytemask()).tolist()]
     if name == "toIndexedOptionArray64":
         return lay.toIndexedOptionArray64()
     if name == "toByteMaskedArray":
